@@ -134,7 +134,9 @@ def strata(tier):
                         p = PC.mkpath([{"p": "mol"}, {"p": "mol"}])
                     yield {"kind": "pathspec", "path": dict(p, datum=d, multi=m, order=o), "sseed": j, "doc": doc}
     toks = [["a", "b"], ["m", "0"], ["l", "2", "a"], ["0", "k", "1"], ["m", "2.5"], ["deep", "a", "a", "a", "2", "a"],
-            ["ll", "0", "1"], ["1.5"], ["1e3"], ["-1"], ["07"], ["nope"], [], ["m", ""], ["l", "-1"], ["mm", "x", "a"]]
+            ["ll", "0", "1"], ["1.5"], ["1e3"], ["-1"], ["07"], ["nope"], [], ["m", ""], ["l", "-1"], ["mm", "x", "a"],
+            ["l", "+1"], ["l", " 1"], ["l", "0_1"], ["l", "1_0"], ["l", "+0"], ["l", "-0"], ["l", "\u0663"], ["ll", "+1", " 0"], ["+1"], ["m", "+1"],
+            ["l", "1 "], ["l", "1.0"], ["l", "1e0"], ["l", "0x1"], ["l", "١"]]
     for t in toks:
         for delim in ("/", ".", ":"):
             if any(delim in x for x in t):
@@ -458,6 +460,11 @@ def run_str(case, ctx):
     if len(obj.parts) != len(parts):
         ctx.violate("C10/str/parts", f"from_str({s!r}, {delim!r}) has {len(obj.parts)} parts, expected {len(parts)}")
         return
+    # the kind of each part: integer-like tokens address a map key or a list index, others a map key only
+    want_kinds = [{"mol": "MapOrListValue", "map": "MapValue", "prim": "MapValue"}[p["p"]] for p in parts]
+    got_kinds = [type(p).__name__ for p in obj.parts]
+    if got_kinds != want_kinds:
+        ctx.violate("C10/str/part-kind/" + "+".join(sorted(set(kinds))), f"from_str({s!r}, {delim!r}) has parts {got_kinds}, the tokens mean {want_kinds}")
     # the all-plain case has an exact API equivalent
     if all(k == "plain" for k in kinds):
         stoks = s.split(delim) if s else []  # (a token that contains the delimiter is several tokens of the string)
